@@ -15,6 +15,9 @@ ID = "C14"
 TECHNIQUE = ("explicit-state breadth-first search over call histories of the real setup objects, lock-step "
              "conformance with an executable reference model on every transition, state merging by a digest of the "
              "whole instance __dict__, plus an un-merged pass with a congruence check of that digest")
+LEVEL_TEXT = ("every call history up to the stated depth over the stated event alphabet is executed on fresh real objects and compared, "
+              "transition by transition, with the scipy reference model (data, fs, dt, sample counts, duration, probes, user arrays, stored "
+              "initial copies); bounded by depth and alphabet, exhaustive inside them")
 RULE = ("a history is one sequence of events from the alphabet executed on a fresh object; non-trivial = it contains "
         "at least two data-changing operations of different kinds (decimate/filter/detrend) or a rollback after a "
         "data-changing operation; distinct by (object kind, event sequence)")
